@@ -757,8 +757,12 @@ func newPool(r *rng.R, n int) *pool {
 // needsOpts damages a valid Nacha text so that it only parses under a ValidateOpts setting, and
 // returns that setting as the JSON of a side-car file.
 func needsOpts(r *rng.R, text string) (string, string) {
+	return needsOptsKind(r.Bool(), text)
+}
+
+func needsOptsKind(dest bool, text string) (string, string) {
 	b := []byte(text)
-	if r.Bool() && len(b) > 13 && b[0] == '1' {
+	if dest && len(b) > 13 && b[0] == '1' {
 		// break the check digit of ImmediateDestination (columns 5-13 of the file header)
 		if b[12] == '4' {
 			b[12] = '5'
@@ -903,6 +907,18 @@ func genCase(r *rng.R, p *pool, g genOpts) *Case {
 	}
 	root := path.Clean(c.Dir)
 	fill(root, 0)
+	if c.OptsExt != "" && r.Chance(1, 3) {
+		// options must not travel between files: a file with a side-car, and (later in directory order) one or
+		// two files that need the very same options but have no side-car of their own
+		kind := r.Bool()
+		d1, oj := needsOptsKind(kind, pick().text)
+		c.Files[root+"/aa_opts.ach"] = d1
+		c.Files[root+"/aa_opts"+c.OptsExt] = oj
+		for _, n := range []string{"zy_noopts.ach", "zz_noopts.txt"}[:1+r.Intn(2)] {
+			d2, _ := needsOptsKind(kind, pick().text)
+			c.Files[root+"/"+n] = d2
+		}
+	}
 	// strip the "./" prefix of paths below "."
 	if root == "." {
 		nf := map[string]string{}
